@@ -152,7 +152,9 @@ def info : P Info := fun ts => do
   let (a, ts) ← nat ts
   let (b, ts) ← nat ts
   let (c, ts) ← nat ts
-  pure ({ hostname := hostname, addr := addr, tcp := tcp, version := version, ver := (a, b, c) }, ts)
+  -- an `/info` answer without `broadcast_address` (and `http_port`) is written with the address ":0"
+  pure ({ hostname := hostname, addr := addr, tcp := tcp, version := version, ver := (a, b, c),
+          noBcast := addr.startsWith ":" }, ts)
 
 def lookupd : P Lookupd := fun ts => do
   let (addr, ts) ← str ts
@@ -172,6 +174,14 @@ def expect (tag : String) : P Unit
   | t :: r => if t == tag then some ((), r) else none
   | [] => none
 
+/-- One entry of the optional section `I <n> …`: `<lk> <topic> <answer /lookup> <answer /channels>`. -/
+def topicAns : P TopicAns := fun ts => do
+  let (lk, ts) ← str ts
+  let (t, ts) ← str ts
+  let (lo, ts) ← answer (counted (nullable "P" producer)) ts
+  let (ch, ts) ← answer (counted str) ts
+  pure ({ lk := lk, topic := t, lookup := lo, channels := ch }, ts)
+
 def world : P World := fun ts => do
   let (_, ts) ← expect "W" ts
   let (_, ts) ← expect "L" ts
@@ -180,7 +190,11 @@ def world : P World := fun ts => do
   let (as, ts) ← counted str ts
   let (_, ts) ← expect "N" ts
   let (ns, ts) ← counted nsqd ts
-  pure ({ lookupds := ls, nsqdAddrs := as, nsqds := ns }, ts)
+  match ts with
+  | "I" :: ts' =>
+    let (pt, ts'') ← counted topicAns ts'
+    pure ({ lookupds := ls, nsqdAddrs := as, nsqds := ns, perTopic := pt }, ts'')
+  | _ => pure ({ lookupds := ls, nsqdAddrs := as, nsqds := ns }, ts)
 
 def request : P Request
   | "topics" :: r => some (.topics, r)
@@ -189,6 +203,7 @@ def request : P Request
   | "nodes" :: r => some (.nodes, r)
   | "node" :: a :: r => some (.node a, r)
   | "counter" :: r => some (.counter, r)
+  | "inactive" :: r => some (.topicsInactive, r)
   | _ => none
 
 /-! ### Rendering -/
@@ -235,6 +250,8 @@ def renderBody : Body → String
       joinOr (sorted (t.channels.map (fun c =>
         e c.name ++ "~" ++ cs c.cnt ++ "~" ++ b01 c.paused ++ "~" ++ toString c.clients.length))) "+"))) ";" ++ "]"
   | .counter st => joinOr (sorted (st.map (fun kv => kv.1 ++ "=" ++ toString (Nsq.Model.Int64.wrap64 kv.2)))) ","
+  | .inactive m =>
+    "I[" ++ joinOr (m.map (fun kv => e kv.1 ++ "=" ++ joinOr (kv.2.map e) "+")) ";" ++ "]"
   | .none => "-"
 
 def renderView (v : View) : String :=
